@@ -9,6 +9,10 @@ type nat =
 
 val option_map : ('a1 -> 'a2) -> 'a1 option -> 'a2 option
 
+type ('a, 'b) sum =
+| Inl of 'a
+| Inr of 'b
+
 val fst : ('a1 * 'a2) -> 'a1
 
 val snd : ('a1 * 'a2) -> 'a2
@@ -32,11 +36,21 @@ val sub : nat -> nat -> nat
 
 module Nat :
  sig
+  val sub : nat -> nat -> nat
+
   val eqb : nat -> nat -> bool
 
   val leb : nat -> nat -> bool
 
   val ltb : nat -> nat -> bool
+
+  val min : nat -> nat -> nat
+
+  val divmod : nat -> nat -> nat -> nat -> nat * nat
+
+  val div : nat -> nat -> nat
+
+  val modulo : nat -> nat -> nat
  end
 
 val tl : 'a1 list -> 'a1 list
@@ -50,6 +64,8 @@ val last : 'a1 list -> 'a1 -> 'a1
 val removelast : 'a1 list -> 'a1 list
 
 val rev : 'a1 list -> 'a1 list
+
+val rev_append : 'a1 list -> 'a1 list -> 'a1 list
 
 val concat : 'a1 list list -> 'a1 list
 
@@ -800,6 +816,234 @@ val d_spec_stored : nat -> fs -> str list -> val0
 
 val dispatch_history : z -> val0 -> val0 option
 
+val cRLF : str
+
+val prefixb : str -> str -> bool
+
+val infixb : str -> str -> bool
+
+val frev : str -> str
+
+val find_crlf : str -> nat option
+
+val cut_line : str -> (str * str) option
+
+val take_while0 : (z -> bool) -> str -> str
+
+val split_on_aux : z -> str -> str -> str list
+
+val split_on0 : z -> str -> str list
+
+val split_first : z -> str -> (str * str) option
+
+val digit : z -> bool
+
+val digits_val : str -> z -> z option
+
+val iNT_MAX : z
+
+val atoi : str -> z option
+
+val print_dec_aux : nat -> nat -> str -> str
+
+val print_dec : nat -> str
+
+val ascii_space : z -> bool
+
+val uspace_seqs : str list
+
+val strip_any : str list -> str -> str option
+
+val trim_left_f : str list -> nat -> str -> str
+
+val trim_left : str -> str
+
+val trim_right : str -> str
+
+val trim_space : str -> str
+
+val is_crlf_char : z -> bool
+
+val trim_crlf : str -> str
+
+val lower_name : str -> str
+
+val s_CONTENT_LENGTH : str
+
+val s_X_API_KEY : str
+
+val mAX_CONTENT_LENGTH : z
+
+type hstate = { h_clen : z; h_key : str }
+
+val h0 : hstate
+
+val header_line : hstate -> str -> hstate option
+
+val s_POST : str
+
+val s_GET : str
+
+val s_HTTP : str
+
+val qchar : z -> bool
+
+val get_match : str -> str option
+
+val s_LIMIT : str
+
+val s_OFFSET : str
+
+val get_params : str -> z * z
+
+type verdict =
+| VAccept
+| VEmpty
+| VError of str
+
+val spec_headers : nat -> str -> hstate -> (hstate * str) option
+
+val key_ok : str -> str -> bool
+
+val spec_body : str -> str -> str option
+
+val s_HTTP11 : str
+
+val s_CLEN_HDR : str
+
+val reason : z -> str
+
+val status_line_ok : str -> z option
+
+val resp_headers : nat -> str -> str option -> (str option * str) option
+
+val wf_response : str -> z option
+
+val s_LOCALHOST : str
+
+val s_LOOPBACK : str
+
+val is_local : str -> bool
+
+val sTART_BUF : z
+
+val mAX_TOKEN : z
+
+type scanner = { sc_cap : z; sc_start : z; sc_data : str; sc_rest : str list;
+                 sc_eof : bool }
+
+val sc_init : str list -> scanner
+
+type tokres =
+| Tok of nat * str
+| Final of str
+| NoTok
+
+val split_fn : str -> bool -> nat -> z -> tokres
+
+type sres =
+| STok of str * scanner
+| SFinal of str
+| SStop
+| SMore of scanner
+
+val do_read : z -> z -> str -> str list -> sres
+
+val refill : scanner -> sres
+
+val scan_step : scanner -> nat -> z -> sres
+
+type pstate = { p_section : nat; p_get : str option; p_h : hstate;
+                p_body : str }
+
+val p_init : pstate
+
+val m_INVALID_METHOD : str
+
+val m_CL_MISSING : str
+
+val m_INVALID_CL : str
+
+val m_INVALID_KEY : str
+
+val m_INCOMPLETE : str
+
+val m_NO_ACTION : str
+
+val m_TIMEOUT_JSON : str
+
+val s_CTYPE : str
+
+type pres =
+| PCont of pstate
+| PBreak of pstate
+| PEarly of str
+
+val process : pstate -> str -> pres
+
+val run : nat -> scanner -> pstate -> ((pstate, str) sum * bool) res
+
+val total_len : str list -> nat
+
+val fuel_of : str list -> nat
+
+type outcome0 = { o_code : z; o_resp : str; o_actions : str option;
+                  o_get : (z * z) option }
+
+val code_digits : z -> str
+
+val status_line : z -> str
+
+val answer : z -> str -> str -> str
+
+val bad : str -> outcome0
+
+val unauthorized : outcome0
+
+type decision =
+| DOut of outcome0
+| DGet of str
+| DParse of str
+
+val decide : str -> (pstate, str) sum -> decision
+
+val finish : str -> (str -> verdict) -> bool -> decision -> outcome0
+
+val scan_eof : str list -> ((pstate, str) sum * bool) res
+
+val scan_all : str list -> (pstate, str) sum res
+
+val waits_for_close : str list -> bool res
+
+val handle :
+  str -> str -> (str -> verdict) -> bool -> str list -> outcome0 res
+
+val pending_body : str -> str list -> str option res
+
+type listen_res =
+| LAddrInvalid
+| LPortInvalid
+| LOk of str * z
+
+val parse_listen_address : str -> listen_res
+
+type start_res =
+| StartRefusedNoKey
+| StartListen of str * z
+| StartBadAddress of listen_res
+
+val start_decision : str -> str -> start_res
+
+val as_verdict : val0 -> verdict
+
+val vopt_str : str option -> val0
+
+val v_outcome : outcome0 -> val0
+
+val v_start : start_res -> val0
+
+val dispatch_http : z -> val0 -> val0 option
+
 type field = nat
 
 val f_FUZZY : field
@@ -888,9 +1132,9 @@ val vsome : val0 -> val0
 
 val is_digit : z -> bool
 
-val digits_val : z -> str -> z option
+val digits_val0 : z -> str -> z option
 
-val atoi : str -> z option
+val atoi0 : str -> z option
 
 val sequence : 'a1 option list -> 'a1 list option
 
@@ -1139,7 +1383,7 @@ val starts : z -> str -> bool
 
 val ends : z -> str -> bool
 
-val trim_left : str -> str
+val trim_left0 : str -> str
 
 val trim_right_rev : str -> str
 
@@ -1223,12 +1467,12 @@ val case_sensitive : case_mode -> str -> str -> bool
 
 val strip_ops : bool -> ttype -> str -> ((ttype * bool) * str) res
 
-type pstate = { st_sets : termSet list; st_set : termSet;
-                st_switchSet : bool; st_afterBar : bool }
+type pstate0 = { st_sets : termSet list; st_set : termSet;
+                 st_switchSet : bool; st_afterBar : bool }
 
-val parse_step : char_ops -> popts -> pstate -> str -> pstate res
+val parse_step : char_ops -> popts -> pstate0 -> str -> pstate0 res
 
-val parse_loop : char_ops -> popts -> str list -> pstate -> termSet list res
+val parse_loop : char_ops -> popts -> str list -> pstate0 -> termSet list res
 
 val parse_terms : char_ops -> popts -> str -> termSet list res
 
@@ -1299,9 +1543,9 @@ type lst = { l_mode : mode; l_cur : str; l_acc : str list }
 
 val step0 : lst -> z -> lst option
 
-val run : lst -> str -> lst option
+val run0 : lst -> str -> lst option
 
-val finish : lst -> str list option
+val finish0 : lst -> str list option
 
 val l_init : lst
 
@@ -1403,13 +1647,13 @@ val parse_placeholder : str -> (flags * str) res
 
 val is_digit0 : z -> bool
 
-val digits_val0 : z -> str -> z option
+val digits_val1 : z -> str -> z option
 
 val int_min : z
 
 val int_max : z
 
-val atoi0 : str -> z option
+val atoi1 : str -> z option
 
 val itoa_pos : nat -> z -> str -> str
 
@@ -1458,7 +1702,7 @@ val transform1 : str list -> rng -> str
 
 val transform_join : str list -> rng list -> str
 
-val ascii_space : z -> bool
+val ascii_space0 : z -> bool
 
 val space_len : str -> nat
 
@@ -1466,7 +1710,7 @@ val space_len_rev : str -> nat
 
 val trim_with : (str -> nat) -> nat -> str -> str
 
-val trim_space : str -> str
+val trim_space0 : str -> str
 
 type item = z * str
 
@@ -1538,6 +1782,140 @@ val v_piece : piece -> val0
 
 val dispatch_placeholder : z -> val0 -> val0 option
 
+val nLB : z
+
+val nUL : z
+
+val delim_of : bool -> z
+
+val unrev : str -> str
+
+val split_acc : z -> str -> str -> str list
+
+val split_records : z -> str -> str list
+
+type item0 = nat * str
+
+val number_from : nat -> str list -> item0 list
+
+val header_of : nat -> str list -> str list
+
+val items_of : nat -> str list -> item0 list
+
+val keep_tail : nat -> 'a1 list -> 'a1 list
+
+val searchable : bool -> nat -> nat -> str -> item0 list
+
+type slice = { sl_buf : nat; sl_off : nat; sl_len : nat }
+
+type mem0 = str list
+
+val take_exact : nat -> 'a1 list -> 'a1 list res
+
+val drop_exact : nat -> 'a1 list -> 'a1 list res
+
+val overwrite : 'a1 list -> 'a1 list -> 'a1 list res
+
+val write_off : nat -> 'a1 list -> 'a1 list -> 'a1 list res
+
+val deref : mem0 -> slice -> str res
+
+val write_at : mem0 -> nat -> nat -> str -> mem0 res
+
+val alloc : mem0 -> str -> mem0 * nat
+
+val cR : z
+
+val index_byte0 : str -> z -> nat option
+
+type fstate = { f_mem : mem0; f_left : str; f_items : slice list }
+
+val emit0 : fstate -> slice -> fstate res
+
+val scan_buf : nat -> z -> bool -> nat -> nat -> str -> fstate -> fstate res
+
+val read_retry : nat -> nat -> nat -> str -> nat list -> str * nat list
+
+val read_tries : nat
+
+val feed_loop :
+  nat -> nat -> nat -> z -> bool -> str -> nat list -> slice -> fstate ->
+  fstate res
+
+val feed :
+  nat -> nat -> z -> bool -> str -> nat list -> (mem0 * slice list) res
+
+val deref_all : mem0 -> slice list -> str list res
+
+val feed_records : nat -> nat -> z -> bool -> str -> nat list -> str list res
+
+type 'a chunk = 'a list
+
+type 'a chunklist = 'a chunk list
+
+val is_full : nat -> 'a1 chunk -> bool
+
+val last_chunk : 'a1 chunklist -> 'a1 chunk res
+
+val count_items : nat -> 'a1 chunklist -> nat res
+
+val push : nat -> 'a1 chunklist -> bool -> 'a1 -> 'a1 chunklist res
+
+val num_chunks : z -> 'a1 chunk list -> nat
+
+val trim_loop : z -> 'a1 chunk list -> 'a1 chunk list
+
+val snapshot :
+  nat -> nat -> 'a1 chunklist -> ((('a1 chunklist * 'a1
+  chunklist) * nat) * bool) res
+
+type 'a clop =
+| Push of bool * 'a
+| Snapshot of nat
+| Clear
+
+type 'a clobs = ('a chunklist * nat) * bool
+
+val run_ops :
+  nat -> 'a1 chunklist -> 'a1 clop list -> ('a1 chunklist * 'a1 clobs list)
+  res
+
+type bstate = { b_header : str list; b_index : nat }
+
+val build : nat -> bstate -> str -> bstate * item0 option
+
+val ingest :
+  nat -> nat -> bstate -> item0 chunklist -> str list -> (bstate * item0
+  chunklist) res
+
+val pipeline :
+  nat -> nat -> nat -> bool -> nat -> nat -> str -> nat list -> (str
+  list * item0 list) res
+
+val as_nats : val0 -> nat list
+
+val vitem : item0 -> val0
+
+val vres_strs : str list res -> val0
+
+val d_feed : val0 -> val0
+
+val d_split : val0 -> val0
+
+val as_clop : val0 -> z clop
+
+val vchunks : z chunklist -> val0
+
+val d_clops : val0 -> val0
+
+val d_pipeline : val0 -> val0
+
+val d_searchable : val0 -> val0
+
+val d_keep_tail : val0 -> val0
+
+val dispatch_record : z -> val0 -> val0 option
+
 val is_blank : z -> bool
 
 val non_blank : z -> bool
@@ -1596,7 +1974,7 @@ val print_fexpr : fexpr -> str
 
 val is_space0 : z -> bool
 
-val trim_right : (z -> bool) -> str -> str
+val trim_right0 : (z -> bool) -> str -> str
 
 val inside_selection : fexpr -> nat -> str list -> nat -> nat -> bool
 
@@ -1609,7 +1987,7 @@ type delimiter =
 
 val is_awk : delimiter -> bool
 
-val slice : str -> nat -> nat -> str res
+val slice0 : str -> nat -> nat -> str res
 
 val with_prefix_lengths : str list -> z -> token list
 
@@ -1644,9 +2022,9 @@ val digits_value : str -> z
 
 val iNT_MIN : z
 
-val iNT_MAX : z
+val iNT_MAX0 : z
 
-val atoi1 : str -> z option
+val atoi2 : str -> z option
 
 type range = z * z
 
@@ -1767,7 +2145,7 @@ val skipped : str list -> str -> str -> bool
 
 val pruned : wopts -> str list -> str -> str -> bool
 
-val emit0 : bool -> str -> str list
+val emit1 : bool -> str -> str list
 
 val list_entry : wopts -> str list -> str -> entry -> str list
 
@@ -1805,17 +2183,17 @@ val join_paths : str -> str -> str
 
 val pATH_SEPARATOR : z
 
-val trim_loop : str -> str
+val trim_loop0 : str -> str
 
 val trim_path : str -> str
 
-val take_while0 : ('a1 -> bool) -> 'a1 list -> 'a1 list
+val take_while1 : ('a1 -> bool) -> 'a1 list -> 'a1 list
 
 val go_base : str -> str
 
 val split_ignores : str list -> (str list * str list) * str list
 
-val push : bool -> str -> str list
+val push0 : bool -> str -> str list
 
 val walk_fn :
   wopts -> ((str list * str list) * str list) -> str -> kind0 -> (str
